@@ -262,6 +262,7 @@ func c15(c *Ctx) {
 		c15Readers(c, px, valid)
 		c15Relay(c, px)
 		c15Events(c, px)
+		c15HalfClose(c, px)
 	}
 	c15Forward(c)
 	c15Wiring(c)
